@@ -315,13 +315,18 @@ def make_switching(kind: str, p: "Problem", seed: int, switch_at: int, trigger_p
 
     # half of the update functions rewrite the deque they were handed, entry by entry, and return that very
     # object (a legitimate style: "rewrites the stored gradients"), the others return a fresh deque
-    inplace = random.Random(seed * 31 + 5).random() < 0.5
+    _style = random.Random(seed * 31 + 5).random()
+    inplace = _style < 0.5
+    mutate_arrays = _style < 0.25      # ... half of those write into the stored arrays themselves (gi += ..., same objects, same deque)
 
     def _ret(G, Gn):
         if not inplace:
             return Gn
         for i, gi in enumerate(Gn):
-            G[i] = gi
+            if mutate_arrays and isinstance(G[i], np.ndarray) and G[i].flags.writeable and G[i].shape == np.shape(gi):
+                G[i][...] = gi
+            else:
+                G[i] = gi
         return G
 
     def upd(x, f0, f0_old, grad, X, G):
@@ -354,14 +359,19 @@ def make_update(kind: str, seed: int, switch_at: int):
     w_new = r.choice([0.5, 2.0, 10.0])
     scale = r.choice([0.25, 3.0])
 
-    inplace = random.Random(seed * 31 + 5).random() < 0.5
+    _style = random.Random(seed * 31 + 5).random()
+    inplace = _style < 0.5
+    mutate_arrays = _style < 0.25
 
     def _ret(G, Gn):
-        # in place: the deque handed in is rewritten entry by entry and returned itself
+        # in place: the deque handed in is rewritten entry by entry (or the stored arrays themselves are overwritten) and returned itself
         if not inplace:
             return Gn
         for i, gi in enumerate(Gn):
-            G[i] = gi
+            if mutate_arrays and isinstance(G[i], np.ndarray) and G[i].flags.writeable and G[i].shape == np.shape(gi):
+                G[i][...] = gi
+            else:
+                G[i] = gi
         return G
 
     def upd(x, f0, f0_old, grad, X, G):
@@ -441,7 +451,12 @@ def scenario(seed: int, features: Optional[Dict[str, Any]] = None, families=None
     sc = feat.get("scaler", "none")
     if sc == "const":
         s = feat.get("s", 10 ** r.uniform(-3, 3))
-        kw["gradient_scaler"] = lambda x, g, lb, ub, s=s: s
+        # the factor in the type the user's scaler happens to compute it in (feature "s_type"): a Python float (default), a Python
+        # int, numpy integer / float32 scalars, a 0-d array — all legitimate positive numbers
+        st_ = feat.get("s_type", "float")
+        sv = {"float": float, "int": int, "np.int64": np.int64, "np.float32": np.float32, "np.float64": np.float64,
+              "0-d array": lambda v: np.array(float(v))}[st_](s)
+        kw["gradient_scaler"] = lambda x, g, lb, ub, s=sv: s
     elif sc == "packaged":
         from lbfgsb.utils import get_gradient_projection_unit_scaling
         kw["gradient_scaler"] = get_gradient_projection_unit_scaling
